@@ -943,36 +943,63 @@ def run_l15(chk, repo):
     m = repo.module(MOD)
     cls = m.classes.get('ShareableThreadLock')
     f = cls.methods.get('_lock_ex') if cls else None
+    if f is None and cls is not None:
+        f = cls.methods.get('lock')            # the two private context managers may have been merged into lock()
     if f is None:
         raise AnalysisError('L15: ShareableThreadLock._lock_ex not found')
-    flags = {a.arg for a in f.node.args.args if a.arg != 'self'}
+    flags = {a.arg for a in f.node.args.args if a.arg not in ('self', 'shared')}
     cfg = CFG(f.node)
-    n = 0
-    for t in [x for x in cfg.nodes.values() if x.kind == 'test']:
-        src_ = unparse(t.ast)
-        if '_acquired_by' not in src_:
-            try:
-                src_ = unparse(reach.expand_expr(cfg, t.id, t.ast))
-            except Exception:
-                pass
-        if '_acquired_by' not in src_ or isinstance(t.ast, ast.Name) or unparse(t.ast) in (f'self._acquired_by',):
-            continue
-        # only conditions that compare the table with the thread's own holds (a difference / another key), not `if table:`
-        if not any(isinstance(x, (ast.BinOp, ast.Compare, ast.Call)) for x in ast.walk(t.ast)):
-            continue
+    closures = {g.name: g for g in ast.walk(f.node) if isinstance(g, ast.FunctionDef) and g is not f.node}
+
+    def expand(nid, e):
         try:
-            full = reach.expand_expr(cfg, t.id, t.ast, depth=4)
+            return reach.expand_expr(cfg, nid, e, depth=4)
         except TypeError:
-            full = reach.expand_expr(cfg, t.id, t.ast)
+            return reach.expand_expr(cfg, nid, e)
+    conds = []          # (node id for resolving locals, expression, text)
+    for t_ in [x for x in cfg.nodes.values() if x.kind == 'test']:
+        conds.append((t_.id, t_.ast, t_.line))
+        # a local predicate called in the test stands for what it returns
+        for c in ast.walk(t_.ast):
+            if isinstance(c, ast.Call) and isinstance(c.func, ast.Name) and c.func.id in closures:
+                for r in ast.walk(closures[c.func.id]):
+                    if isinstance(r, ast.Return) and r.value is not None:
+                        conds.append((t_.id, r.value, r.lineno))
+    for nd in cfg.nodes.values():
+        if nd.ast is None or not isinstance(nd.ast, ast.AST):
+            continue
+        for c in ast.walk(nd.ast):
+            if isinstance(c, ast.Call) and isinstance(c.func, ast.Attribute) and c.func.attr == 'wait_for' and c.args:
+                p_ = c.args[0]
+                if isinstance(p_, ast.Lambda):
+                    conds.append((nd.id, p_.body, c.lineno))
+                elif isinstance(p_, ast.Name) and p_.id in closures:
+                    for r in ast.walk(closures[p_.id]):
+                        if isinstance(r, ast.Return) and r.value is not None:
+                            conds.append((nd.id, r.value, r.lineno))
+    n, seen_ = 0, set()
+    for nid, e, line in conds:
+        full = expand(nid, e)
+        src_ = unparse(full)
+        if '_acquired_by' not in src_ or src_ in seen_:
+            continue
+        # only conditions that set the table against the thread's own holds (a difference / other keys), not `if table:`
+        if not any(isinstance(x, (ast.BinOp, ast.Compare)) or (isinstance(x, ast.Call) and not (
+                isinstance(x.func, ast.Name) and x.func.id in closures)) for x in ast.walk(full)):
+            continue
+        if not any(isinstance(x, ast.BinOp) and isinstance(x.op, ast.Sub) and '_acquired_by' in unparse(x.left)
+                   for x in ast.walk(full)):
+            continue            # "held by OTHER threads" is a difference: table minus own holds / keys minus own id
+        seen_.add(src_)
         used = {x.id for x in ast.walk(full) if isinstance(x, ast.Name)} & flags
         n += 1
-        chk.instance(L15, f'_lock_ex: `{unparse(t.ast)[:60]}` independent of the request flags: {not used}')
+        chk.instance(L15, f'{f.name}: `{unparse(e)[:60]}` independent of the request flags: {not used}')
         if used:
-            chk.violation(L15, m.rel, f.qualname, f'{unparse(t.ast)[:60]} depends on {sorted(used)}',
+            chk.violation(L15, m.rel, f.qualname, f'{unparse(e)[:60]} depends on {sorted(used)}',
                           f'what counts as "held by others" depends on the flag(s) {sorted(used)}: a non-reentrant request of a '
                           f'thread that already holds the lock waits for its own hold (forever) instead of raising '
-                          f'RecursiveDeadlockError', line=t.line,
+                          f'RecursiveDeadlockError', line=line,
                           witness='with path_lock(p, shared=False): with path_lock(p, shared=False, reentrant=False): the inner '
                                   'request hangs')
-    if n < 2:
-        raise AnalysisError(f'L15: only {n} holder-table conditions found in _lock_ex')
+    if n < 1:
+        raise AnalysisError('L15: no condition on the holds of other threads found in the exclusive lock')
